@@ -31,6 +31,7 @@ ASSUMPTIONS = [
     "magnitudes are bounded by 2^2200 (numerators, denominators and integers) to keep allocation small",
 ]
 
+IMPL_ENV = {"SV_TIMEOUT_MS": "60000"}
 OPS = ["<", "=<", ">", ">=", "=:=", "=\\="]
 FIX_MIN, FIX_MAX = -(2 ** 55), 2 ** 55 - 1
 
@@ -361,8 +362,8 @@ def make_case(i, a, b, flag):
             "prolog": "%s  vs  %s" % (A if len(A) < 80 else A[:77] + "...", B if len(B) < 80 else B[:77] + "...")}
 
 
-RE_R = re.compile(r"R=\[([^\]]*)\]")
-RE_R6 = re.compile(r"R6=\[([^\]]*)\]")
+RE_R = re.compile(r'[{,]R="([tf]*)"')      # a list of one-char atoms is printed as a string
+RE_R6 = re.compile(r'[{,]R6="([tf]*)"')
 RE_X = re.compile(r"[{,]X=((?:r\([^)]*\))|(?:f\([^)]*\))|(?:-?\d+))")
 RE_Y = re.compile(r"[{,]Y=((?:r\([^)]*\))|(?:f\([^)]*\))|(?:-?\d+))")
 
@@ -371,7 +372,7 @@ def vec_from(res, rx=RE_R):
     m = rx.search(res)
     if not m:
         return None
-    return "".join(x.strip("'") for x in m.group(1).split(","))
+    return m.group(1)
 
 
 def transient(r):
@@ -411,12 +412,25 @@ def run(ctx):
             pairs.append((a, b, rng.getrandbits(2)))
     cases = [make_case(i, a, b, fl) for i, (a, b, fl) in enumerate(pairs)]
     t0 = time.time()
-    impl, model = diff.run_cases(cases)
-    flaky = [c for c in cases if any(transient(impl.get(core.line_id(l), "missing")) for l in c["impl"])]
-    retried = len(flaky)
-    if flaky:
-        impl2, _ = diff.run_cases([{"id": c["id"], "impl": c["impl"]} for c in flaky[:500]], parallel=False)
-        impl.update(impl2)
+    impl, model = diff.run_cases(cases, impl_env=IMPL_ENV)
+
+    def suspect(c):
+        """a case whose lines were disturbed by machine load: a harness process that died during start-up
+        or a watchdog timeout loses the consulted clauses of the case (existence_error on its own k*_
+        procedures) — never a verdict on the comparison. Such a case is run again alone."""
+        rs = [impl.get(core.line_id(l), "missing") for l in c["impl"]]
+        return any(transient(r) or r.startswith("panic(") or ("existence_error" in r and "_" + c["id"] + "'" in r) for r in rs)
+
+    retried = 0
+    for attempt in (1, 2):
+        flaky = [c for c in cases if suspect(c)]
+        if not flaky:
+            break
+        retried += len(flaky)
+        core.log("[C04] %d case(s) disturbed (load?), re-running each alone, attempt %d: %s" % (
+            len(flaky), attempt, [(c["id"], impl.get(c["id"] + "_l", "missing")[:40]) for c in flaky[:4]]))
+        for c in flaky[:300]:
+            impl.update(core.run_impl(c["impl"], env=IMPL_ENV))
     core.log("[C04] correspondence run: %d pairs, %.1fs, %d retried" % (len(cases), time.time() - t0, retried))
 
     findings = []
